@@ -1,6 +1,7 @@
 import FlVerif.Op.Session
 import FlVerif.Props.C12
 import FlVerif.Lemmas.CodeSessionRestart
+import FlVerif.Lemmas.CodeEngineIOVar
 
 /-! # C13 — Processing is history-free; restart and copy give clean independent engines -/
 
@@ -177,6 +178,21 @@ theorem code_restart (reload : Block Rat → Except (Py.Err × Block Rat) (Block
 example : ∃ s', restartR (α := ℚ) (fun b => .error b)
     { engine := { inputs := [], outputs := [], blocks := [⟨true, none, none, none, .general, []⟩] },
       outs := [⟨[.fin 1], .fin 2⟩] } = .error s' ∧ s'.outs = [⟨[.fin 1], .fin 2⟩] := ⟨_, rfl, rfl⟩
+
+/-- **Tie A (code → model).**  `Gen.Code.Engine_copy` is regenerated from the source of `Engine.copy` on every run:
+    the function is one `copy.deepcopy(self)` whose result is returned as it is (`copy.deepcopy` is the external
+    `Py.EIO.deepcopy`: an equal value; the translated values are immutable, so it shares nothing with the original).
+    The copy is the model's `Op.Session.copy` – the same configuration, input values, output values and previous values;
+    there is no restart, no reloading of the rules and no re-binding step in the function (a statement added to it
+    changes the generated definition).  That the Python objects of the copy are independent of the original is carried
+    by the correspondence run, as before. -/
+theorem code_copy (s : Sess Rat) :
+    ∃ σ, Gen.Code.Engine_copy.run s {} = .ok σ ∧ σ.ret = some (Op.Session.copy s) :=
+  Op.code_copy s
+
+/-- a copy behaves like the original: every command sequence gives the same states and observations -/
+theorem copy_same_behaviour (F : Fn α) (s : Sess α) (cmds : List (Cmd α)) :
+    Op.Session.run F (Op.Session.copy s) cmds = Op.Session.run F s cmds := rfl
 
 /-! ## non-vacuity -/
 example : (restart ({ engine := { inputs := [], outputs := [], blocks := [] }, outs := [] } : Sess ℚ)).outs = [] := rfl
